@@ -92,6 +92,22 @@ func condFacts(cond ssa.Value, val bool) []Fact {
 		}
 		return nil
 	}
+	if ph, ok := cond.(*ssa.Phi); ok && (ph.Comment == "||" && !val || ph.Comment == "&&" && val) {
+		// short-circuit lowering: `a || b` false means every operand is false; `a && b` true means every operand is true
+		var out []Fact
+		for _, e := range ph.Edges {
+			if c, isC := e.(*ssa.Const); isC && c.Value != nil {
+				continue
+			}
+			out = append(out, condFacts(e, val)...)
+		}
+		if val {
+			out = append(out, Fact{"true", cond, nil})
+		} else {
+			out = append(out, Fact{"false", cond, nil})
+		}
+		return out
+	}
 	if val {
 		return []Fact{{"true", cond, nil}}
 	}
